@@ -144,6 +144,13 @@ Theorem C10_preencrypted :
   (forall drm, encryptsTrack drm false = false) /\ liveMPDdrm false true = Ok tt /\ liveMPDdrm true false = Ok tt.
 Proof. exact preencrypted_refused. Qed.
 
+(** Whether protection data exists for a track does not depend on how the asset was loaded (scanned,
+    or restored from stored representation metadata after a restart): it is prepared for every
+    encryptable codec.  Tied to the code by the correspondence on three differently started servers. *)
+Theorem C10_protection_independent_of_load_path : forall enc,
+  readInitPrepares enc true = readInitPrepares enc false /\ readInitPrepares true true = true.
+Proof. exact protection_independent_of_load_path. Qed.
+
 (** Non-vacuity: the id livesim2 computes for every asset, its key, the licence exchange in both
     flavours, and a toy cipher (xor with the first key byte) through two chunks. *)
 Example C10_example :
